@@ -36,4 +36,13 @@ void touch(asio::ip::tcp::socket& t, asio::ip::udp::socket& u)
 	t.get_option(r, ec);
 	t.non_blocking(true); t.non_blocking(true, ec);
 }
+
+// the three ways of handing work to an io_context: the library itself only posts, so dispatch and defer would
+// otherwise never be instantiated
+void touch_executor(asio::io_context& ios)
+{
+	asio::post(ios, [] {});
+	asio::dispatch(ios, [] {});
+	asio::defer(ios, [] {});
+}
 }
